@@ -127,8 +127,8 @@ CLAIMS.update({
     text='Proof (Coq) + correspondence. The model\'s abstract syntax identifies vocabularies and constant shortcuts; inside it the three factorings the property names are theorems on the normalisation chain, for every '
          'document: classes as rdf:type predicate-object maps (classes_as_type_poms), subject graph maps repeated on every predicate-object map (subject_graphs_on_every_pom), the fully explicit spelling '
          '(explicit_spelling), multi-valued against split predicate-object maps (multi_valued_as_split, for documents without mixed maps; refuted for a mixed one in Findings/C09.v) -- identical rule tables. '
-         'Vocabulary (R2RML / RML / legacy), shortcuts, serialisations (Turtle, shuffled N-Triples, RDF/XML, prefixes, base, blank-node labels, extension) are compared pairwise on the implementation for every generated mapping.',
-    note='rdflib parsers, SPARQL and the vocabulary rewrites are outside the Coq model (correspondence only). YARRRML is not rendered by the harness: not covered.',
+         'Vocabulary (R2RML / RML / legacy / YARRRML), shortcuts, serialisations (Turtle, shuffled N-Triples, RDF/XML, prefixes, base, blank-node labels, extension) are compared pairwise on the implementation for every generated mapping.',
+    note='rdflib parsers, SPARQL and the vocabulary rewrites are outside the Coq model (correspondence only). YARRRML is rendered for the fragment its translator supports (no functions / RML-star in YARRRML). Genuine defect repaired (fix: f1b9f2f).',
     technique='Coq proof (normalisation invariant under the factorings) + differential check over spellings', ref='0.3 C09'),
  'C10': dict(
     text='Proof (Coq), partial + correspondence. The readers are third-party code: Model/Data.v arrive states what each one hands over, and that statement is measured on every run (one abstract table rendered into every '
